@@ -46,6 +46,7 @@ static Em* emp[MAXE]; static Li* lip[MAXL];       // addresses kept for the dump
 static Act script[MAXL][NSLOT][MAXA]; static int nscript[MAXL][NSLOT];
 static int cur_e[64], cur_sg[64];
 static char logbuf[1 << 16]; static size_t loglen;
+static char trbuf[1 << 18]; static size_t trlen;      // internal data of the emitting signal at every slot entry / exit
 
 static bool parse_act(char** v, int n, Act& a)
 {
@@ -81,6 +82,29 @@ static void perform(const Act& a)
   }
 }
 
+// L-int inside an emission: the emitting signal's slot list with states, its dirty flag and the invalidated
+// flags along the chain of activations (innermost first), read through the access override
+static void snapshot(char tag, int e, int sg)
+{
+  if(trlen > sizeof(trbuf) - 2048) { printf("?trace-overflow\n"); abort(); }
+  trlen += snprintf(trbuf + trlen, sizeof(trbuf) - trlen, "%s%c%d.%d:", trlen ? " " : "", tag, e, sg);
+  if(!em[e]) { trlen += snprintf(trbuf + trlen, sizeof(trbuf) - trlen, "x"); return; }
+  Map<Callback::MemberFuncPtr, Callback::Emitter::SignalData>::Iterator it = em[e]->signalData.find(Callback::MemberFuncPtr(sigs[sg]));
+  if(it == em[e]->signalData.end()) { trlen += snprintf(trbuf + trlen, sizeof(trbuf) - trlen, "x"); return; }
+  bool first = true;
+  for(List<Callback::Emitter::Slot>::Iterator i = it->slots.begin(), end = it->slots.end(); i != end && trlen < sizeof(trbuf) - 1024; ++i) {
+    int l = -1; for(int k = 0; k < nl; ++k) if((Callback::Listener*)lip[k] == i->receiver) l = k;
+    int s = -1; for(int k = 0; k < NSLOT; ++k) if(Callback::MemberFuncPtr(slts[k]) == i->slot) s = k;
+    trlen += snprintf(trbuf + trlen, sizeof(trbuf) - trlen, "%s%d.%d%s", first ? "" : ",", l, s,
+                      i->state == Callback::Emitter::Slot::connected ? "" : i->state == Callback::Emitter::Slot::connecting ? "!c" : "!d");
+    first = false;
+  }
+  trlen += snprintf(trbuf + trlen, sizeof(trbuf) - trlen, ":%d:", it->dirty ? 1 : 0);
+  int n = 0;
+  for(Callback::Emitter::SignalActivation* a = it->activation; a && n < 64; a = a->next, ++n)
+    trlen += snprintf(trbuf + trlen, sizeof(trbuf) - trlen, "%d", a->invalidated ? 1 : 0);
+}
+
 static void run_slot(Li* self, int s)
 {
   volatile unsigned m = self->magic;     // touches the receiver: ASan reports a destroyed one here
@@ -88,9 +112,12 @@ static void run_slot(Li* self, int s)
   if(m != 0x51075107u || id < 0 || id >= MAXL) { printf("?bad-receiver\n"); abort(); }
   loglen += snprintf(logbuf + loglen, sizeof(logbuf) - loglen, "%s%d.%d>%d.%d", loglen ? " " : "", cur_e[depth - 1], cur_sg[depth - 1], id, s);
   if(loglen > sizeof(logbuf) - 64) { printf("?log-overflow\n"); abort(); }
+  int me = cur_e[depth - 1], msg = cur_sg[depth - 1];
+  snapshot('<', me, msg);
   // the script lives outside the object: the slot may destroy its own listener
   for(int k = 0; k < nscript[id][s]; ++k)
     perform(script[id][s][k]);
+  snapshot('>', me, msg);
 }
 
 static int lidx(Callback::Listener* p) { for(int k = 0; k < nl; ++k) if((Callback::Listener*)lip[k] == p) return k; return -1; }
@@ -195,11 +222,11 @@ static void op(long c, long, vh::Tok& t)
   }
   Act a;
   if(!parse_act(t.v, t.n, a)) { printf("%ld ?unknown-op\n", c); return; }
-  loglen = 0; logbuf[0] = 0;
+  loglen = 0; logbuf[0] = 0; trlen = 0; trbuf[0] = 0;
   perform(a);
   printf("%ld %s |", c, loglen ? logbuf : "-");
   dump();
-  printf("\n");
+  printf(" | %s\n", trlen ? trbuf : "-");
 }
 
 static void end(long) { cleanup_objs(); }
